@@ -82,19 +82,28 @@ namespace lang
             std::swap(data_, v.data_);
         }
 
-        constexpr fixed_vector operator=(const fixed_vector& v)
+        constexpr fixed_vector& operator=(const fixed_vector& v)
         {
-            return fixed_vector(v);
+            fixed_vector tmp(v);
+            swap(tmp);
+
+            return *this;
         }
 
-        constexpr fixed_vector operator=(fixed_vector&& v)
+        constexpr fixed_vector& operator=(fixed_vector&& v)
         {
-            return fixed_vector(std::move(v));
+            fixed_vector tmp(std::move(v));
+            swap(tmp);
+
+            return *this;
         }
 
-        constexpr fixed_vector operator=(const std::initializer_list<value_type>& l)
+        constexpr fixed_vector& operator=(const std::initializer_list<value_type>& l)
         {
-            return fixed_vector(l.size(), l);
+            fixed_vector tmp(l.size(), l);
+            swap(tmp);
+
+            return *this;
         }
 
         ~fixed_vector() = default;
@@ -364,6 +373,13 @@ namespace lang
         size_type capacity_ = 0;
 
         std::unique_ptr<value_type[]> data_;
+
+        constexpr void swap(fixed_vector& other) noexcept
+        {
+            std::swap(size_, other.size_);
+            std::swap(capacity_, other.capacity_);
+            std::swap(data_, other.data_);
+        }
 
         template <typename A>
         constexpr std::enable_if_t<std::is_move_assignable<A>::value> replace(A& a, A&& b)
